@@ -124,6 +124,10 @@ def main():
         data = {"items": [{"i": j} for j in range(n)]}
         chooser = perm_chooser(perm) if sched == "perm" else eg.random_chooser(random.Random(perm))
         info = eg.convert(eg.run_many(definition, [data], make_worker(failing), tmpd, chooser=chooser))
+        if info.status == "exception":
+            ck.violation("an engine callback raised %s while a branch failed: %s" % (info.exception["error"], json.dumps({"kind": kind, "n": n, "failing": sorted(failing), "catch": catch, "MaxConcurrency": mc, "reply_priority": perm})),
+                         {"case": {"definition": definition, "input": data, "exception": info.exception}})
+            return
         evs, cancelled, obs, late, rec = observe(info, failing)
         d = {"kind": kind, "n": n, "failing_branches": sorted(failing), "catch": catch, "MaxConcurrency": mc, "reply_priority": perm, "schedule": sched,
              "definition": definition, "input": data, "events": evs, "cancelled_at_failure": cancelled, "record": rec, "late_effects": late,
@@ -185,6 +189,10 @@ def main():
         sseed = rng.randrange(10 ** 9)
         info = eg.convert(eg.run_many(definition, [data], wk, tmpd, chooser=eg.random_chooser(random.Random(sseed))))
         info.profile, info.schedule = "c06_random", "random(seed=%d)" % sseed
+        if info.status == "exception":
+            ck.violation("an engine callback raised %s in a machine with a failing fan-out: %s" % (info.exception["error"], json.dumps(definition)[:1200]),
+                         {"case": {"definition": definition, "schedule": info.schedule, "exception": info.exception}})
+            continue
         info.worker_desc = {"seed": wk.seed, "failures": wk.failures, "outcomes": {"%s %s" % k: v for k, v in wk.oracle.items()}}
         d = eg.describe(info)
         d["leftovers"] = info.leftovers
